@@ -9,7 +9,7 @@
      same and other namespaces, sharing r's patterns verbatim or with other
      modifiers / filesize bounds);
    * [c_warm]: core compiled alone behind a rule that forces the pattern
-     search (only used by K, see below).
+     search (used by K, see below).
 
    [spec_case] - the property itself, on the implementation's own outputs:
    the slice is the same alone and embedded.
@@ -28,7 +28,6 @@ Record case := mkCase {
   c_data : list Z;
   c_globals : list value;
   c_core : list rule;
-  c_fast_model : bool;        (* K uses the model of the `N of` fast path (N <= 0 is generated) *)
   c_matches_compared : bool;  (* false when the scanner runs in fast-scan mode *)
   (* per pattern of r: 0 = matches anywhere are reported; 1, k = the compiler
      anchors the pattern at offset k (all its uses are `at k`): only a match at
@@ -90,7 +89,7 @@ Fixpoint blank (an : list (nat * Z)) (ms : list mlist) : list mlist :=
 
 Definition predicted (c : case) : obs :=
   let k := (length (c_core c) - 1)%nat in
-  let '(all, _) := run (fun e => e) (c_data c) (c_globals c) (c_fast_model c) (c_core c) in
+  let '(all, _) := run (fun e => e) (c_data c) (c_globals c) (c_core c) in
   mkObs (existsb (Nat.eqb k) all)
         (match nth_error (c_core c) k with
          | Some r => restrict_all (c_anchor c) (map (fun p => find_all p (c_data c)) (r_pats r))
@@ -100,7 +99,7 @@ Definition predicted (c : case) : obs :=
 (* the value of r's own condition (before global-rule suppression) *)
 Definition raw_verdict (c : case) : bool :=
   nth (length (c_core c) - 1)%nat
-      (verdicts (fun e => e) (c_data c) (c_globals c) (c_fast_model c) (c_core c)) false.
+      (verdicts (fun e => e) (c_data c) (c_globals c) (c_core c)) false.
 
 (* K compares the reported matches only when r's condition holds: the
    compiler derives filesize bounds and header constraints from the
@@ -108,6 +107,9 @@ Definition raw_verdict (c : case) : bool :=
    [undocumented], so for a false condition fewer matches may be reported *)
 Definition check_case (c : case) : bool :=
   let p := predicted c in
+  (* the verdict is also predicted for the plain run (regression assert for the
+     skipped lazy search, commit e5009a16) *)
+  Bool.eqb (o_verdict p) (o_verdict (c_single c)) &&
   obs_eqb (c_matches_compared c && raw_verdict c)
           (mkObs (o_verdict p) (blank (c_anchor c) (o_matches p)) true)
           (mkObs (o_verdict (c_warm c)) (blank (c_anchor c) (o_matches (c_warm c))) true).
